@@ -185,6 +185,48 @@ theorem send_rel_packets_fit {ε : Type} (c : SendChannelReliable) (seq avail no
   obtain ⟨b', hw⟩ := to_bytes_of_enc p b hb buf (by omega)
   exact ⟨b', b.length, hw, hle⟩
 
+/-- `num_slices` of a table entry (0 for a small message) -/
+def numSlicesG : SUnacked → Nat
+  | .Small .. => 0
+  | .Sliced _ n .. => n
+
+/-- **C13 + C16, reliable channel: what is sent is what the peer decodes.**  If moreover the channel id is a `u8` and
+    no stored message needs more than `MAX_NUM_SLICES` slices (the limit `from_bytes` enforces), then every packet of
+    the flush is written by the generated `to_bytes` into at most 1300 bytes AND the generated `from_bytes` on exactly
+    those bytes returns that very packet. -/
+theorem send_rel_packets_roundtrip {ε : Type} (c : SendChannelReliable) (seq avail now : Nat) (h : WfSR c now seq)
+    (hch : c.channel_id < 256) (hbig : ∀ p ∈ c.unacked_messages, numSlicesG p.2 ≤ C.MAX_NUM_SLICES) :
+    ∃ c' seq' avail' ps,
+      (SendChannelReliable.get_packets_to_send c seq avail now : Res ε _) = .ok (c', seq', avail', ps) ∧
+      (seq' ≤ Varint.MAX + 1 → ∀ gp ∈ ps, ∀ buf : List Nat, C.NETCODE_MAX_PAYLOAD_BYTES ≤ buf.length →
+        ∃ b' n, Src.renet.packet.Packet.to_bytes gp (OctetsMut.with_slice buf) = .ok (b', n) ∧
+          n ≤ C.NETCODE_MAX_PAYLOAD_BYTES ∧
+          Src.renet.packet.Packet.from_bytes (Octets.with_slice (b'.buf.take n)) = .ok (⟨b'.buf.take n, n⟩, gp)) := by
+  obtain ⟨s', ps, seq', avail', hG, hgen⟩ := sr_get_packets' (ε := ε) c seq avail now h
+  refine ⟨_, _, _, _, hgen, ?_⟩
+  intro hseq gp hgp buf hbuf
+  obtain ⟨p, hp, rfl⟩ := List.mem_map.1 hgp
+  obtain ⟨b, hb, hsz⟩ := C13.reliable_sizes hG (wf_abs h) h.2.2.1 hseq p hp
+  have hbig' : ∀ id m n na nx ak ls, (id, Unacked.sliced m n na nx ak ls) ∈ (absSR c).unacked → n ≤ C.MAX_NUM_SLICES := by
+    intro id m n na nx ak ls hm
+    simp only [absSR, List.mem_map] at hm
+    obtain ⟨q, hq, he⟩ := hm
+    have := hbig q hq
+    obtain ⟨qid, qu⟩ := q
+    cases qu with
+    | Small m' ls' => simp [absU] at he
+    | Sliced m' n' a' nx' ak' ls' =>
+      simp only [absU, Prod.mk.injEq, Unacked.sliced.injEq] at he
+      obtain ⟨_, _, rfl, _⟩ := he
+      exact this
+  have hpwf : p.WF := C13.reliable_wf hG (wf_abs h) hch h.2.2.1 hseq hbig' p hp
+  have hle : b.length ≤ C.NETCODE_MAX_PAYLOAD_BYTES := by
+    have h1 := C13.small_reliable_bound_fits
+    have h2 := C13.slice_bound_fits
+    rcases hsz with ⟨_, _, _, hl⟩ | ⟨_, _, _, hl⟩ <;> omega
+  obtain ⟨b', hw⟩ := to_bytes_of_enc p b hb buf (by omega)
+  exact ⟨b', b.length, hw, hle, (roundtrip_repr p hpwf buf b' _ hw).2.2.2⟩
+
 /-- **C14, reliable channel: the budget never grows.**  On a well-formed channel the new `*available_bytes` is the old
     one minus exactly the payload bytes of the returned packets; the packets are numbered consecutively from
     `*packet_sequence`; the memory counter is untouched (nothing is released before it is acknowledged). -/
@@ -233,6 +275,14 @@ example : ∃ c' seq' avail' ps,
       ∃ b' n, Src.renet.packet.Packet.to_bytes gp (OctetsMut.with_slice buf) = .ok (b', n) ∧
         n ≤ C.NETCODE_MAX_PAYLOAD_BYTES) :=
   send_rel_packets_fit exSR 20 5000 1000 exSR_wf
+/-- … and is decoded by the peer as itself (instance of the round-trip theorem) -/
+example : ∃ c' seq' avail' ps,
+    (SendChannelReliable.get_packets_to_send exSR 20 5000 1000 : Res Empty _) = .ok (c', seq', avail', ps) ∧
+    (seq' ≤ Varint.MAX + 1 → ∀ gp ∈ ps, ∀ buf : List Nat, C.NETCODE_MAX_PAYLOAD_BYTES ≤ buf.length →
+      ∃ b' n, Src.renet.packet.Packet.to_bytes gp (OctetsMut.with_slice buf) = .ok (b', n) ∧
+        n ≤ C.NETCODE_MAX_PAYLOAD_BYTES ∧
+        Src.renet.packet.Packet.from_bytes (Octets.with_slice (b'.buf.take n)) = .ok (⟨b'.buf.take n, n⟩, gp)) :=
+  send_rel_packets_roundtrip exSR 20 5000 1000 exSR_wf (by decide) (by decide)
 /-- a full slice: 1200 payload bytes + 9 header bytes ≤ 1300 -/
 example : okSnd (Src.renet.packet.Packet.to_bytes (.ReliableSlice 20 3 ⟨9, 0, 2, List.replicate 1200 7⟩)
     (OctetsMut.with_slice (List.replicate 1300 0))) = some 1208 := by decide +kernel
